@@ -84,7 +84,7 @@ type Explorer struct {
 	Incomplete   string
 	StepsTotal   int64
 	Decisions    int64
-	Samples      []map[string]interface{}
+	Samples      []sampleRec
 	Observed     []string
 
 	known []knownFinding // for this harness
